@@ -143,7 +143,8 @@ func genC02(m *M, budget int) {
 
 // genC05: Equal / IsIdentity over all relation classes, both orders.
 func genC05(m *M, budget int) {
-	lamPairs := [][2]string{{"one", "random"}, {"random", "one"}, {"one", "one"}, {"random", "two"}, {"", ""}}
+	lamPairs := [][2]string{{"one", "random"}, {"random", "one"}, {"one", "one"}, {"random", "two"}, {"", ""},
+		{"limb_struct", "one"}, {"one", "limb_struct"}, {"limb_struct", "mont_window"}}
 	off := m.rng.Intn(1000)
 	for c := 0; m.events < budget; c++ {
 		if c%2 == 0 {
@@ -237,6 +238,9 @@ func genC04(m *M, budget int) {
 		// extreme coordinates: the encoders must emit them and the decoders take them back
 		for i := k; i < k+2; i++ {
 			x, y, cls := m.boundaryPoint()
+			if i%2 == 1 {
+				x, y, cls = m.structuredPoint()
+			}
 			m.class("boundary:" + cls)
 			m.putPoint(0, x, y, m.anyLam())
 			enc := m.EEncode(0)
@@ -289,6 +293,10 @@ func (m *M) xClass(class string) []byte {
 	case "boundary":
 		x, _, _ := m.boundaryPoint()
 		return be32(x)
+	case "structured":
+		x, _, cls := m.structuredPoint()
+		m.class("structured:" + cls)
+		return be32(x)
 	case "small_y":
 		for {
 			if x, _ := pointWithY(big.NewInt(int64(1 + m.rng.Intn(1<<20)))); x != nil {
@@ -302,7 +310,7 @@ func (m *M) xClass(class string) []byte {
 }
 
 var xClasses = []string{"zero", "one", "small_on", "small_off", "p_minus_1", "p", "p_plus_1", "on_curve_plus_p",
-	"max", "random_on", "random_on", "random_off", "boundary", "boundary", "small_y"}
+	"max", "random_on", "random_on", "random_off", "boundary", "boundary", "small_y", "structured", "structured", "structured"}
 var yClasses = []string{"right", "other_root", "y_plus_p", "random", "ge_p", "zero"}
 var prefixes = []byte{0, 1, 2, 3, 4, 5, 6, 7, 0xff}
 
@@ -371,7 +379,25 @@ func genC03(m *M, budget int) {
 			m.class("x:" + xc)
 			m.class("y:" + yc)
 			var data []byte
-			switch m.rng.Intn(10) {
+			choice := m.rng.Intn(10)
+			if xi := new(big.Int).SetBytes(xb); m.rng.Intn(3) == 0 && xi.Cmp(bigP) < 0 {
+				if yy := curveY(xi); yy != nil {
+					// a VALID encoding of the point with this (boundary / structured / small) abscissa, in either form
+					// and with either root: the decoders must accept it
+					if m.rng.Intn(2) == 0 {
+						yy.Sub(bigP, yy)
+					}
+					if m.rng.Intn(2) == 0 {
+						data = append([]byte{byte(2 + yy.Bit(0))}, xb...)
+					} else {
+						data = append(append([]byte{4}, xb...), be32(yy)...)
+					}
+					m.class("valid_encoding_of_class_point")
+					choice = -1
+				}
+			}
+			switch choice {
+			case -1:
 			case 0, 1, 2:
 				data = append([]byte{pfx}, xb...)
 			case 3, 4, 5:
